@@ -64,6 +64,8 @@ def run(ctx):
         fam = M.rand_family(rng, nsrc=rng.choice([0, 1, 2, 3, 5, 8]) if big else None, nkeys=rng.choice([30, 150]) if big else None,
                             alpha=list(range(256)) if big else None, tokbase=1 + 50 * n if n < 1000 else 1, maxlen=4)
         merge, dupsort = M.MODES[n % 4]
+        if dupsort and not merge:
+            fam = M.prefix_related_values(fam, rng)
         failtok = -1
         if merge and n % 9 == 5:
             toks = [t for src in fam for _, ts in src for t in ts]
